@@ -890,7 +890,16 @@ def run(ctx):
     gen = Gen()
     build(api, gen)
     pre = PREAMBLE + "\n" + "\n".join(gen.defs) + "\n"
-    res = coqrun.prove_lemmas(ctx, "c15", pre, gen.lemmas, per_file=1000, timeout=900, max_retries=60) if gen.lemmas else {}
+    # stage 1: the correspondence lemmas are independent of each other -> small shards in parallel (a change that breaks many
+    # tables then costs a few retries per shard instead of one recompilation of everything per failing lemma);
+    # stage 2: the composition lemmas, in one file whose preamble re-proves the correspondence lemmas they cite
+    corr = [l for l in gen.lemmas if l.name.startswith("corr_")]
+    comp = [l for l in gen.lemmas if l.name.startswith("comp_")]
+    res = coqrun.prove_lemmas(ctx, "c15corr", pre, corr, per_file=16, timeout=600, max_retries=16) if corr else {}
+    cited = [l for l in corr if res.get(l.name) == "ok" and any(l.name + "," in c.proof or l.name + "." in c.proof or l.name + " " in c.proof for c in comp)]
+    pre2 = pre + "\n".join(f"Lemma {l.name} : {l.statement}.\nProof.\n{l.proof}\nQed." for l in cited) + "\n"
+    if comp:
+        res.update(coqrun.prove_lemmas(ctx, "c15comp", pre2, comp, per_file=1000, timeout=600, max_retries=40))
     ok = sum(v == "ok" for v in res.values())
     ctx.obligations(len(res) + len(gen.broken), ok)
     ctx.coverage["generated_lemmas"] = {"corr": sum(n.startswith("corr_") for n in res), "comp": sum(n.startswith("comp_") for n in res),
